@@ -130,6 +130,7 @@ def contact_case(draw):
     pairs = [(u, v) for u in nodes for v in adj[u]]
     vals = st.sampled_from([0.1, 0.3, 0.45, 0.6, 0.8, 1.0])
     return {'gc': gc, 'xi': [draw(vals) for _ in nodes], 'zeta': [draw(vals) for _ in nodes], 'rule': draw(st.sampled_from(RULES)),
+            'numtype': draw(st.sampled_from(['float', 'numpy', 'int-answer'])),
             'dur': [draw(st.sampled_from([0, 0.5, 1, 2, 'inf'])) for _ in nodes],
             'delay': [draw(st.sampled_from([0, 0.5, 1, 1.5, 3, 'inf'])) for _ in pairs],
             'p': draw(st.sampled_from([0.0, 1.0, 0.5, 0.3, 0.7])), 'tau': draw(gen.pos_rates), 'gamma': draw(gen.rates),
@@ -158,10 +159,18 @@ def prop_contact(case):
     G = oracles.build_graph(gc)
     N = len(nodes)
     fails = []
+    import numpy as _np
     xi = dict(zip(nodes, case['xi']))
     zeta = dict(zip(nodes, case['zeta']))
-    rule = transmission_rule(case['rule'])
-    want_edges = set((u, v) for (u, v) in pairs if rule(xi[u], zeta[v]))
+    base_rule = transmission_rule(case['rule'])
+    rule = base_rule
+    if case.get('numtype') == 'numpy':
+        # attributes held as numpy scalars: the rule's answer is then a numpy.bool_, not the singleton True
+        xi = {u: _np.float64(x) for u, x in xi.items()}
+        zeta = {u: _np.float64(x) for u, x in zeta.items()}
+    elif case.get('numtype') == 'int-answer':
+        rule = (lambda x, z: 1 if base_rule(x, z) else 0)
+    want_edges = set((u, v) for (u, v) in pairs if base_rule(float(xi[u]), float(zeta[v])))
     # nonMarkov_directed_percolate_network (public builder)
     name = 'nonMarkov_directed_percolate_network'
     try:
@@ -182,6 +191,19 @@ def prop_contact(case):
         fails += check_pair(name, pair, nodes, succ)
     except Exception as e:
         fails.append(Failure('%s:exception:%s' % (name, exc_signature(e)), 'raised %r' % (e,)))
+    # the timing builder itself, with and without attributes
+    dur_ = {u: float('inf') if d == 'inf' else d for u, d in zip(nodes, case['dur'])}
+    delay_ = {p_: float('inf') if d == 'inf' else d for p_, d in zip(pairs, case['delay'])}
+    keep = set(p_ for p_ in pairs if delay_[p_] <= dur_[p_[0]])
+    for w in (True, False):
+        bname = 'nonMarkov_directed_percolate_network_with_timing'
+        try:
+            Hb = EoN.nonMarkov_directed_percolate_network_with_timing(G, lambda u, v: delay_[(u, v)], lambda u: dur_[u], weights=w)
+            if set(Hb.nodes()) != set(nodes) or set(Hb.edges()) != keep:
+                fails.append(Failure('%s:edge-rule:weights=%s' % (bname, w), 'weights=%s: edges %r; delay<=duration holds exactly for %r'
+                                     % (w, sorted(Hb.edges(), key=repr), sorted(keep, key=repr))))
+        except Exception as e:
+            fails.append(Failure('%s:exception:%s' % (bname, exc_signature(e)), 'raised %r' % (e,)))
     # with timing
     name = 'estimate_nonMarkov_SIR_prob_size_with_timing'
     dur = {u: float('inf') if d == 'inf' else d for u, d in zip(nodes, case['dur'])}
@@ -246,7 +268,7 @@ def prop_contact(case):
         if sim is not None:
             sim.directed_percolate_network = orig
     nt = len(want_edges) >= 1 and len(want_edges) < len(pairs) and N >= 3
-    return Result(fails, nontrivial=nt, classes=['rule=' + case['rule']] + (['spied'] if cap and cap2 else ['not-spied']))
+    return Result(fails, nontrivial=nt, classes=['rule=' + case['rule'], 'answers=' + case.get('numtype', 'float')] + (['spied'] if cap and cap2 else ['not-spied']))
 
 
 def replay(ctx, sub, case):
